@@ -10,6 +10,7 @@ import (
 func Edge() []*e1.Program {
 	styled := func(p *e1.Program, st render.Style) *e1.Program { p.Style = st; return p }
 	withImp := func(p *e1.Program, imps ...string) *e1.Program { p.Imports = imps; return p }
+	isolated := func(p *e1.Program) *e1.Program { p.Isolate = true; return p }
 	return []*e1.Program{
 		// a local variable named like the seq package, in a file that already imports seq under that name
 		styled(G("edge-local-var-named-seq", `
@@ -24,6 +25,159 @@ for i := 0; i < 2; i++ {
 	YIELD(sq + i)
 }
 RETNIL`, "name:seq"), render.NamedSeq),
+		// the name of the file's own seq import bound by every other kind of declaration: parameter, receiver, named
+		// result, range variables, function-literal parameter, type-switch binding, constant, type, label-free
+		// (a package of its own: no other declaration of the file may mention the name)
+		isolated(styled(Raw("edge-seq-name-bound-by-parameters-receivers-results-and-range-variables", `
+type §bag struct{ xs []int }
+
+func (seq §bag) Each() ITER[int] GEN[int]{
+	for _, x := range seq.xs {
+		YIELD(x)
+	}
+	RETNIL
+}GEN
+func §chunks(seq []int, n int) ITER[int] GEN[int]{
+	for len(seq) > 0 {
+		k := min(n, len(seq))
+		YIELD(k*100 + seq[0])
+		seq = seq[k:]
+	}
+	RETNIL
+}GEN
+func §named() (seq ITER[int]) GEN[int]{
+	YIELD(7)
+	RETNIL
+}GEN
+func §gen() ITER[int] GEN[int]{
+	YFROM(§bag{[]int{1, 2}}.Each())
+	YFROM(§chunks([]int{3, 4, 5}, 2))
+	YFROM(§named())
+	for seq := range []int{8, 9} {
+		YIELD(seq)
+	}
+	for _, seq := range "ab" {
+		YIELD(int(seq))
+	}
+	for seq := range OVER<<§named()>>OVER {
+		YIELD(seq + 1)
+	}
+	f := func(seq int) int { return seq * 2 }
+	YIELD(f(10))
+	g := func(seq int) ITER[int] GEN[int]{
+		YIELD(seq)
+		YIELD(seq + 1)
+		RETNIL
+	}GEN
+	YFROM(g(30))
+	RETNIL
+}GEN
+`+StdEntry, "name:seq"), render.DotSeq)),
+		styled(G("edge-seq-name-bound-by-initialisers-constants-and-types", `
+switch seq := any(tr.V(1, 5)).(type) {
+case int:
+	YIELD(seq)
+}
+if seq := tr.V(2, 6); seq > 0 {
+	YIELD(seq)
+}
+{
+	const seq = 40
+	YIELD(seq)
+}
+{
+	type seq struct{ v int }
+	YIELD(seq{41}.v)
+}
+RETNIL`, "name:seq"), render.DotSeq),
+		isolated(styled(Raw("edge-seq-alias-name-bound-by-parameters-receivers-results-and-range-variables", `
+type §bag struct{ xs []int }
+
+func (sq *§bag) Each() ITER[int] GEN[int]{
+	for _, x := range sq.xs {
+		YIELD(x)
+	}
+	RETNIL
+}GEN
+func §tail(sq []int) (_ ITER[int]) GEN[int]{
+	for sq := range sq {
+		YIELD(sq)
+	}
+	RETBARE
+}GEN
+func §gen() ITER[int] GEN[int]{
+	YFROM((&§bag{[]int{1, 2}}).Each())
+	YFROM(§tail([]int{5, 6}))
+	for sq, v := range map[int]int{3: 4} {
+		YIELD(sq*10 + v)
+	}
+	RETNIL
+}GEN
+`+StdEntry, "name:seq"), render.NamedSeq)),
+		// the API functions explicitly instantiated
+		Raw("edge-explicitly-instantiated-yield-and-yieldfrom", `
+type §node struct {
+	v    any
+	kids []*§node
+}
+
+func (n *§node) Walk() ITER[any] GEN[any]{
+	if n == nil {
+		RETNIL
+	}
+	YIELDT[any](n.v)
+	for _, k := range n.kids {
+		YFROMT[any](k.Walk())
+	}
+	YIELDT[any]("end")
+	RETNIL
+}GEN
+func §ints[T ~int](xs ...T) ITER[T] GEN[T]{
+	for _, x := range xs {
+		YIELDT[T](x)
+	}
+	RETNIL
+}GEN
+func §twice[T ~int](xs ...T) ITER[T] GEN[T]{
+	YFROMT[T](§ints(xs...))
+	YFROMT[T](§ints[T](xs...))
+	RETNIL
+}GEN
+func §gen() ITER[int] GEN[int]{
+	t := &§node{1, []*§node{{"two", nil}, {3, []*§node{{4, nil}}}}}
+	for v := range OVER<<t.Walk()>>OVER {
+		switch x := v.(type) {
+		case int:
+			YIELDT[int](x)
+		case string:
+			YIELDT[int](len(x) * 100)
+		}
+	}
+	YFROMT[int](§twice(7, 8))
+	for YFROMT[int](§ints(1)); tr.B(1); YIELDT[int](9) {
+		tr.E(2)
+	}
+	RETNIL
+}GEN
+`+StdEntry, "explicit-instantiation"),
+		styled(Raw("edge-explicitly-instantiated-yield-and-yieldfrom-named-import", `
+func §sub(n int) ITER[int] GEN[int]{
+	for i := range n {
+		YIELDT[int](i)
+	}
+	RETNIL
+}GEN
+func §gen() ITER[int] GEN[int]{
+	YFROMT[int](§sub(2))
+	f := func() ITER[int] GEN[int]{
+		YFROMT[int](§sub(1))
+		YIELDT[int](5)
+		RETNIL
+	}GEN
+	YFROMT[int](f())
+	RETNIL
+}GEN
+`+StdEntry, "explicit-instantiation"), render.Named),
 		// user functions that merely share the API's names (named import style)
 		styled(Raw("edge-user-func-named-yield", `
 func §Yield(x int) int { return tr.V(1, x*2) }
